@@ -293,6 +293,15 @@ inductive Terminal where
   | fail (code : Nat)                          -- a locally produced error (decode, flags, limits)
   deriving DecidableEq, Repr
 
+/-- a streaming body that ends inside an envelope: `d` = the bytes of the unfinished envelope (a
+    proper, non-empty prefix of one: 1-4 bytes of its 5-byte prefix, or the prefix and less payload
+    than it promises), after which the transport reports a clean end. `envelopeReader.Read` then
+    fails with invalid_argument in every case ("incomplete envelope", "promised N bytes, got M",
+    or the size refusal whose discard ran into the end) - `C04.cut_tail_prefix_is_envRead` ties
+    the prefix case to `envRead`; never a clean end. -/
+def recvCutTail (d : Bytes) : Terminal :=
+  if d.isEmpty then .cleanEOF else .fail codeInvalidArgument
+
 /-- walk the body items as `Receive` in a loop does; `enc` = the pool selected by the response's
     encoding header (`none` = identity / absent) -/
 def recvItems (cfg : CCfg) (enc : Option Compressor) : List BodyItem → List Bytes × Terminal
@@ -315,7 +324,10 @@ def recvItems (cfg : CCfg) (enc : Option Compressor) : List BodyItem → List By
     if cfg.proto = .connect then ([], .endStream e m) else ([], .fail codeInternal)
   | .webTrailer b :: _ =>
     if cfg.proto = .grpcWeb then ([], .webTrailer (sanitizeBlock b)) else ([], .fail codeInternal)   -- textproto trims values
-  | .raw _ :: _ => ([], .fail codeInternal)
+  | .raw d :: rest =>
+    -- bytes that are not a whole envelope, at the very end of a streaming body whose transport
+    -- then reports a clean end: what `envelopeReader.Read` makes of them (never a clean end)
+    if rest.isEmpty then ([], recvCutTail d) else ([], .fail codeInternal)
   | .errorJSON _ :: _ => ([], .fail codeInternal)
   | .errorJSONz _ :: _ => ([], .fail codeInternal)
 
